@@ -48,6 +48,7 @@ func main() {
 	fn := fs.String("func", "", "function (dump)")
 	obl := fs.String("obl", "", "obligation glob (dump)")
 	split := fs.Bool("split", false, "dump: split conjunctive goals into separate queries")
+	safetyAll := fs.Bool("safety-all", false, "dump: generate safety obligations (nil deref, bounds, nil map write) for every function under contract")
 	timeout := fs.Int("timeout", 0, "per-obligation solver timeout in seconds")
 	fs.Parse(os.Args[2:])
 	if t := os.Getenv("VERIF_TIER"); t == "quick" || t == "thorough" {
@@ -94,6 +95,11 @@ func main() {
 		code = rc.check(*prop, t0)
 	case "dump":
 		rc.split = *split
+		if *safetyAll {
+			for _, sp := range w.C.Funcs {
+				sp.Safety = true
+			}
+		}
 		code = rc.dump(*fn, *obl)
 	case "list":
 		for _, n := range w.FuncNamesIn(w.ModPath) {
